@@ -8,27 +8,25 @@ Import ListNotations.
 Open Scope N_scope.
 
 (* For every prefix of complete elements and every write fault: the loop stops
-   exactly once (closing the keepalive quit channel is its last action); unless the
-   server closed the stream itself, exactly one Disconnected event is emitted, it
-   carries the stream-management count, and the error callback runs exactly once
-   for the loss (plus once per stream error the server had sent); and every stanza
-   completely received before the cut has been routed. *)
+   exactly once (closing the keepalive quit channel is its last action); exactly one
+   Disconnected event is emitted (also when the server closed the stream itself), it
+   carries the stream-management count; the error callback runs exactly once for a
+   loss (plus once per stream error the server had sent; not for a clean server
+   close); and every stanza completely received before the cut has been routed. *)
 Theorem C12_reported_once : forall items inb nw wf,
   let tr := crecv inb nw wf items in
   let p := processed nw wf items in
   count_act is_quit tr = 1%nat /\
   last tr AErrCall = AQuit /\
-  (ends_by_close nw wf items = false ->
-     count_act is_disc tr = 1%nat /\
-     count_act is_err tr = (1 + length (filter is_serr p))%nat /\
-     In (AEvDisconnected (inb + count_stanzas p)) tr) /\
+  count_act is_disc tr = 1%nat /\
+  In (AEvDisconnected (inb + count_stanzas p)) tr /\
+  count_act is_err tr = ((if ends_by_close nw wf items then 0 else 1) + length (filter is_serr p))%nat /\
   filter is_stanza (routed tr) = filter is_stanza p.
 Proof.
   intros items inb nw wf. cbn zeta.
   pose proof (crecv_loss items inb nw wf) as H. cbn zeta in H.
   destruct H as (Hq & Hl & Hd & He & Hin).
-  split; [exact Hq|]. split; [exact Hl|]. split; [|apply crecv_stanzas_once].
-  intros Hc. rewrite Hc in *. split; [exact Hd|]. split; [exact He|]. apply Hin. reflexivity.
+  repeat split; try assumption. apply crecv_stanzas_once.
 Qed.
 
 (* a cut with no terminator before it: everything received was processed *)
@@ -47,7 +45,7 @@ Proof.
   destruct L as (_ & _ & Hd & He & _).
   assert (Hc : ends_by_close 0 None items = false).
   { unfold ends_by_close. rewrite Hp, skipn_all. reflexivity. }
-  rewrite Hc, Hp in *.
+  rewrite Hc, Hp in *. cbn [Nat.add] in He.
   assert (Hs : filter is_serr items = []).
   { clear -H. induction items as [|j items IHi]; [reflexivity|].
     cbn [forallb] in H. apply andb_true_iff in H as [Hj H].
